@@ -294,9 +294,7 @@ impl MT202 {
     /// Check if this message has reject codes
     pub fn has_reject_codes(&self) -> bool {
         if let Some(ref info) = self.field_72 {
-            info.information
-                .iter()
-                .any(|line| line.contains("/REJT/") || line.contains("/RJT/"))
+            info.information.iter().any(|line| line.contains("/REJT/"))
         } else {
             false
         }
@@ -305,9 +303,7 @@ impl MT202 {
     /// Check if this message has return codes
     pub fn has_return_codes(&self) -> bool {
         if let Some(ref info) = self.field_72 {
-            info.information
-                .iter()
-                .any(|line| line.contains("/RETN/") || line.contains("/RET/"))
+            info.information.iter().any(|line| line.contains("/RETN/"))
         } else {
             false
         }
